@@ -272,6 +272,7 @@ func runC18(rc *RC) {
 	rc.S.PausePerm = 0
 	rc.S.Run(nil, 3000, 5*time.Second) // let late answers and noise be handled
 	// afterwards the rooms send an ordinary presence update for every occupant address that was used (role change, status)
+	cbBefore := len(callbacks)
 	upd := rc.Spawn("room-updates", func() {
 		for _, pl := range plans {
 			e.PeerWrite(fmt.Sprintf(`<presence from="%s"><x xmlns="http://jabber.org/protocol/muc#user"><item affiliation="member" role="moderator"/></x></presence>`, pl[0].room))
@@ -374,6 +375,34 @@ func runC18(rc *RC) {
 				}
 			}
 		}
+	}
+	// c9: an occupant address whose last call was a join that gave up is still managed (the room may have let us in); the
+	// room's later presence for it is nobody's answer and goes to the application's presence callback
+	for _, pl := range plans {
+		last := pl[len(pl)-1]
+		allDone := true
+		for _, c := range pl {
+			allDone = allDone && c.done
+		}
+		var se stanza.Error
+		if !allDone || (last.kind != "join" && last.kind != "rejoin") || last.err == nil || errors.As(last.err, &se) {
+			continue
+		}
+		unavailSince := false
+		for _, a := range answers[last.room] {
+			if a.kind == "unavail" && a.step > startStep[last] {
+				unavailSince = true
+			}
+		}
+		if unavailSince {
+			continue
+		}
+		rc.Evals["C18.c9"]++
+		got := false
+		for _, c := range callbacks[cbBefore:] {
+			got = got || c.from == last.room
+		}
+		rc.Check("C18.c9", "presence-after-abandoned-join-dropped", got, "%s %s gave up (%v); the room's later presence for that occupant reached neither a caller nor HandleUserPresence (callbacks since: %v)", last.kind, last.room, last.err, callbacks[cbBefore:])
 	}
 	// c6: presences for rooms that were never joined cause no callback
 	rc.Evals["C18.c6"]++
